@@ -696,6 +696,19 @@ func (h *harness) runC41() {
 	dbms.VerifStartServer()
 	srv.dl.Admin("create users (user, passhash) key(user)", nil)
 	srv.dl.Admin("create data (k, v) key(k)", nil)
+	if g.Coin(1, 3) {
+		// the database has no users yet when the first connection arrives (that connection
+		// is not restricted); the first user is then added by an ordinary transaction, and
+		// every connection accepted afterwards must be restricted
+		if early := h.dial(srv, "early", false); early != nil {
+			es := early.newSession()
+			try(func() { es.Libraries() })
+			try(func() { es.Close() })
+			h.ri.Count("c41.connection-before-first-user", 1)
+		} else {
+			return
+		}
+	}
 	t := srv.dl.Transaction(true)
 	q := t.Query("users", nil)
 	q.Output(setupTh, mkrec(goodUser, goodHash))
@@ -718,7 +731,16 @@ func (h *harness) runC41() {
 	gs := good.newSession()
 	gth := core.NewThread(nil)
 	nonce := gs.Nonce(gth)
-	if !gs.Auth(gth, authString(goodUser, goodHash, nonce)) {
+	authOK := false
+	if res := try(func() { authOK = gs.Auth(gth, authString(goodUser, goodHash, nonce)) }); res != "" {
+		if strings.Contains(res, "already authorized") {
+			h.fail("C41/not-refused", "C41/connection-not-restricted", "a connection accepted while the database has users is not restricted: Auth answered %q", res)
+		} else {
+			h.fail("C41/auth-rejected", "", "a correct password hash over a fresh nonce raised %s", res)
+		}
+		return
+	}
+	if !authOK {
 		h.fail("C41/auth-rejected", "", "a correct password hash over a fresh nonce was rejected")
 		return
 	}
